@@ -40,6 +40,14 @@ def putS (st : Store2) (sid : String) (s : State2) : Store2 := (sid, s) :: st.fi
 def handle (st : Store2) (op : String) (inp : Json) : Store2 × Json :=
   let sid := jstr inp "sid"
   match op with
+  | "conc2" =>
+    -- an observed concurrent run (Accept ‖ Stop ‖ readers on one handler): every handler must be in a state the
+    -- lifecycle invariant allows: running with an open channel, or ended (result or error) with the channel closed
+    let terms := (jarr inp "terms").map fun t => t.getStr?.toOption.getD ""
+    let closed := (jarr inp "closed").map fun b => b.getBool?.toOption.getD false
+    let okOne (t : String) (cl : Bool) : Bool :=
+      if t == "running" then !cl else (t.startsWith "result:" || t.startsWith "err:") && cl
+    (st, jobj [("ok", terms.length == closed.length && (terms.zip closed).all fun (t, cl) => okOne t cl)])
   | "init" =>
     let sc := parseScript2 (jget inp "script")
     let s := init2 sc
